@@ -2,7 +2,7 @@
    block contents.  Also the list/track/song bookkeeping lemmas shared with TrackIndepP.v (C12). *)
 From Sakura.Model Require Import Base Cursor Length Event Song Token LoopMachine LexCore RunCore.
 From Sakura.Spec Require Import LoopSpec.
-From Sakura.Proofs Require Import LoopP.
+From Sakura.Proofs Require Import LoopP ExtP.
 Open Scope Z_scope.
 
 (* ------------------------------------------------------------------------------------------------ *)
@@ -612,7 +612,12 @@ Proof.
            intros E; injection E as <-;
            repeat match goal with |- context [if ?b then _ else _] => destruct b end;
            repeat rewrite ?bf_upd_cur, ?bf_set_time, ?bf_set_play_from, ?bf_runtime_error;
-           reflexivity] ].
+           reflexivity]
+  | (* RPN / NRPN with an argument list *)
+    solve [intros E; injection E as <-;
+           match goal with |- context [exec_rpn_direct ?a ?b ?c] =>
+             destruct (exec_rpn_direct_cases a b c) as [[f ->]|[m ->]] end;
+           [reflexivity|apply bf_runtime_error]] ].
 Qed.
 
 Definition flag_kept (b : Z) (r : res song) : Prop := match r with Ok s => s_break_flag s = b | _ => True end.
